@@ -153,11 +153,43 @@ func (p *Peer) EnableEncryption(secret []byte) error {
 	if err != nil {
 		return err
 	}
-	p.br.dec = dec
+	p.br.dec.Store(dec)
 	p.wmu.Lock()
 	p.enc = enc
 	p.wmu.Unlock()
 	return nil
+}
+
+// SendThenEncrypt is for an encryption response sent from a goroutine other than the reader:
+// decryption of everything received from now on is switched on first (the proxy sends nothing
+// between its request and our response, and encrypts everything after it), then pk goes out
+// in plaintext, then encryption of what we send is switched on. Enabling decryption only
+// after the send would let the reader goroutine take the proxy's encrypted reply for
+// plaintext whenever this goroutine is descheduled in between.
+func (p *Peer) SendThenEncrypt(pk proto.Packet, secret []byte) error {
+	dec, err := newCFB8(secret, true)
+	if err != nil {
+		return err
+	}
+	enc, err := newCFB8(secret, false)
+	if err != nil {
+		return err
+	}
+	payload, err := p.EncodePacket(pk)
+	if err != nil {
+		return err
+	}
+	p.br.dec.Store(dec)
+	p.wmu.Lock()
+	defer p.wmu.Unlock()
+	fr := encodeFrame(payload, p.wthresh)
+	if p.enc != nil {
+		p.enc.xor(fr, fr)
+	}
+	n, err := p.Conn.Write(fr)
+	p.SentBytes.Add(int64(n))
+	p.enc = enc
+	return err
 }
 
 // EncodePacket encodes pk to its payload (id + body) for the current write state.
